@@ -50,11 +50,80 @@ def run(tier):
     _a_vectorised(chk)
     _a_scalar(chk)
     _b_c_cubic_refine(chk)
+    _c_scalar_time_nonuniform(chk)
     _b_linear(chk)
     _d_order_dedup(chk)
     _e_event(chk)
     _e_engine_requests(chk)
+    _e_config_chain(chk)
+    # a section served from the cache was detected with the requested plane, direction filter and options
+    from . import c20
+    from .common import Relabel
+    c20._b_key_params(Relabel(chk, {"C20.b": "C15.e-cache"}), [x for x in c20._sites() if x.cls.name == "_SynodicMapDynamicsService"])
     return chk
+
+
+def _e_config_chain(chk):
+    """The section and the interpolation the detector works with are the configured ones: SynodicMapConfig objects built by
+    their real constructor (class defaults, the map service's default, an explicit normal, an explicit 'linear') go through
+    _SynodicInterface.create_problem and to_backend_inputs; what the backend request carries must be (i) the explicit normal
+    when one is given, else the unit normal of the axis, (ii) the configured offset / plane / direction, (iii) the
+    interpolation kind as one of the two strings the backend compares with (`interp_kind == "cubic"`): 'cubic' for every
+    default configuration (that is what the class documents), 'linear' only when asked for."""
+    IFM = "hiten.algorithms.poincare.synodic.interfaces"
+    CFG = "hiten.algorithms.poincare.synodic.config"
+    imod, icls = ri.find_def(IFM, "_SynodicInterface")
+    cmod, ccls = ri.find_def(CFG, "SynodicMapConfig")
+    rmod, rcls = ri.find_def("hiten.algorithms.types.configs", "RefineConfig")
+    smod, scls = ri.find_def("hiten.algorithms.types.services.maps", "_SynodicMapDynamicsService")
+    NRM = to_obj_array([sp.Symbol(f"n{i}", real=True) for i in range(6)])
+    OFF = sp.Symbol("OFFSET", real=True)
+    opts = SymObj(None, {"workers": SymObj(None, {"n_workers": 1}, "w"), "refine": SymObj(None, {k: sp.Symbol(k.upper()) for k in (
+        "segment_refine", "tol_on_surface", "dedup_time_tol", "dedup_point_tol", "max_hits_per_traj", "newton_max_iter")}, "refine")}, "options")
+    dom = SymObj(None, {"trajectories": []}, "domain")
+
+    def build(**kw):
+        ip = Interp()
+        return ip.instantiate(ClassRef(cmod, ccls), [], dict(kw))
+
+    cases = [("class defaults", lambda: build(), "cubic", None),
+             ("explicit normal", lambda: build(section_normal=NRM, section_offset=OFF, direction=-1), "cubic", NRM),
+             ("interp_kind given as documented ('linear')", lambda: build(interp_kind="linear", section_axis="y", section_offset=OFF), "linear", None),
+             ("interp_kind given as a RefineConfig('linear')", lambda: build(interp_kind=Interp().instantiate(ClassRef(rmod, rcls), [], {"interp_kind": "linear"})), "linear", None)]
+    svc_default = ri.class_member(smod, scls, "_default_map_config") or ri.class_member(smod, scls, "_default_config")
+    if svc_default is not None:
+        cases.append(("map service default", lambda: Interp().apply(FuncRef(svc_default[0], svc_default[2], bound_self=SymObj(ClassRef(smod, scls), {}, "svc"),
+                                                                            qual=f"_SynodicMapDynamicsService.{svc_default[2].name}", owner=(svc_default[0], svc_default[1])), [], {}), "cubic", None))
+    for label, mk, want_kind, want_normal in cases:
+        try:
+            cfg = mk()
+            cap = {}
+            ip = Interp(overrides={"SynodicBackendRequest": lambda ip_, a, k: (cap.update(k), SymObj(None, dict(k), "request"))[1],
+                                   "_BackendCall": lambda ip_, a, k: SymObj(None, dict(k), "call")})
+            iface = SymObj(ClassRef(imod, icls), {}, "interface")
+            prob = ip.apply(ip.getattr(iface, "create_problem"), [], {"domain_obj": dom, "config": cfg, "options": opts})
+            ip.apply(ip.getattr(iface, "to_backend_inputs"), [prob], {})
+        except OutsideFragment as exc:
+            raise AnalysisError(f"synodic configuration chain outside fragment ({label}): {exc}")
+        chk.count("functions partially evaluated", 2)
+        kind = cap.get("interp_kind")
+        chk.check(isinstance(kind, str) and kind == want_kind, "C15.e-config", f"{IFM}::_SynodicInterface.create_problem[interp_kind,{label}]",
+                  f"{label}: the backend request carries interp_kind = {kind!r}; the backend selects the cubic model with `interp_kind == \"cubic\"`, so it must be the string "
+                  f"{want_kind!r} (anything else silently means linear interpolation)", sample=f"{label}: request.interp_kind == {want_kind!r}")
+        nrm = cap.get("normal")
+        if want_normal is not None:
+            ok = nrm is not None and list(to_obj_array(nrm)) == list(want_normal)
+            chk.check(ok, "C15.e-config", f"{IFM}::_SynodicInterface.create_problem[normal,{label}]",
+                      f"the configuration names the section normal {list(want_normal)} (documented to override section_axis) but the request carries {None if nrm is None else list(to_obj_array(nrm))}: "
+                      f"crossings of another plane are reported", sample="request.normal = config.section_normal")
+            chk.check(cap.get("offset") == OFF and cap.get("direction") == -1, "C15.e-config", f"{IFM}::_SynodicInterface.create_problem[offset/direction,{label}]",
+                      f"request carries offset={cap.get('offset')}, direction={cap.get('direction')}", sample="request.offset / direction = config's")
+        else:
+            axis = cfg.attrs.get("section_axis")
+            want = [1 if i == {"x": 0, "y": 1, "z": 2, "vx": 3, "vy": 4, "vz": 5}.get(axis, axis) else 0 for i in range(6)]
+            ok = nrm is not None and [S(v) for v in to_obj_array(nrm)] == [S(v) for v in want]
+            chk.check(ok, "C15.e-config", f"{IFM}::_SynodicInterface.create_problem[normal,{label}]",
+                      f"axis {axis!r}: request normal is {None if nrm is None else list(to_obj_array(nrm))}", sample=f"axis {axis!r} -> unit normal e_{axis}")
 
 
 def _e_engine_requests(chk):
@@ -407,6 +476,34 @@ def _b_c_cubic_refine(chk):
         chk.check(not bad, "C15.c", f"{SB}::_detect_with_segment_refine[cubic state]",
                   "the cubic hit state of the segment-refine detector is not the Hermite interpolant of (x_k, x_k+1) with centred slopes (x[k+1]-x[k-1])/(t[k+1]-t[k-1]) and "
                   "(x[k+2]-x[k])/(t[k+2]-t[k]) evaluated at the same fraction as the hit time (non-uniform grid)", sample="non-uniform grid t = (0,1,3,7): xh = H(s*; x_k, x_k+1, centred slopes)")
+
+
+def _c_scalar_time_nonuniform(chk):
+    """The scalar detector's cubic model of g on a NON-uniform grid is built from slopes over the true time differences: an
+    event function that is affine in time, g(t) = t - 2 sampled at t = (0,1,3,7), has centred slopes exactly 1, so its cubic
+    model is the line itself and ANY sub-interval / secant / Newton scheme locates the crossing exactly at t = 2 (and a state
+    affine in time exactly at its value there).  Slopes over 2*dt (uniform-grid formula) bend the model and move the hit."""
+    R = sp.Rational
+    T = [0, 1, 3, 7]
+    G = [R(t - 2) for t in T]
+    gs = tuple(sp.Symbol(f"g{k}", real=True) for k in range(4))
+    rep4 = dict(zip(gs, G))
+    for newton in (0, 1):
+        cap, tms, sts = _scalar_run(1, rep4, gs, use_cubic=True, r=1, N=4, newton=newton, time_rep=T)
+        chk.count("functions partially evaluated")
+        sub = {tms[k]: sp.Integer(v) for k, v in enumerate(T)}
+        sub.update(rep4)
+        for k in range(4):
+            sub[sts[k, 0]] = R(3) * T[k] + 1        # x_0(t) = 3t + 1
+            sub[sts[k, 1]] = R(-1, 2) * T[k] + 5    # x_1(t) = 5 - t/2
+        hits = [(sp.nsimplify(select_minmax(S(t), sub).subs(sub)), [sp.nsimplify(select_minmax(S(v), sub).subs(sub)) for v in to_obj_array(x)])
+                for t, x in zip(cap.get("cand_times", []), cap.get("cand_states", []))]
+        hits = [h for h in hits if T[1] <= h[0] < T[2]]
+        ok = len(hits) == 1 and hits[0][0] == 2 and hits[0][1] == [7, 4]
+        chk.check(ok, "C15.c", f"{SB}::_detect_with_segment_refine[affine g,non-uniform,newton={newton}]",
+                  f"g(t) = t - 2 and x(t) = (3t+1, 5-t/2) sampled at t = {T}: the detector reports {hits} after {newton} Newton step(s) instead of t = 2, x = (7, 4): "
+                  f"its cubic model does not reproduce data that are affine in time (slopes not taken over the true time differences)",
+                  sample=f"affine data on the grid {T}: hit exactly at t = 2, x = (7, 4) ({newton} Newton step(s))")
 
 
 def _clamp_paths(chk):
